@@ -9,10 +9,16 @@ EXTENDS Codec, Json, IOUtils
 Obs  == ndJsonDeserialize(IOEnv.TRACE_FILE)
 Fuzz == ndJsonDeserialize(IOEnv.FUZZ_FILE)
 
-Bad     == {[i |-> i, fields |-> BadFields(Obs[i])] : i \in {j \in 1..Len(Obs) : BadFields(Obs[j]) # {}}}
+Bad     == {[i |-> i, fields |-> BadFields(Obs[i]), exp |-> Proj(Obs[i].rec, Obs[i].fmt, Obs[i].v)] :
+                i \in {j \in 1..Len(Obs) : BadFields(Obs[j]) # {}}}
 BadFuzz == {i \in 1..Len(Fuzz) : BadOutcome(Fuzz[i].outcome)}
 
-ASSUME ndJsonSerialize(IOEnv.VERDICT_FILE, <<[n |-> Len(Obs), bad |-> Bad, nfuzz |-> Len(Fuzz), badfuzz |-> BadFuzz]>>)
+ClassesSeen  == {Fuzz[i].class : i \in 1..Len(Fuzz)}
+ClassesMissing == CorruptionClasses \ ClassesSeen
+ClassesUnknown == ClassesSeen \ CorruptionClasses
+
+ASSUME ndJsonSerialize(IOEnv.VERDICT_FILE, <<[n |-> Len(Obs), bad |-> Bad, nfuzz |-> Len(Fuzz), badfuzz |-> BadFuzz,
+                                              missing |-> ClassesMissing, unknown |-> ClassesUnknown]>>)
 
 VARIABLE x
 Init == x = 0
